@@ -10,6 +10,8 @@
 //	U := pq.DefaultUniverse()      metrics foo bar baz; labels a b c job instance;
 //	                               values "1" "2" ""; regexes .* .+ 1|2
 //	U.WithLabels("a","b","c")      copy with another label set
+//	pq.SpecialUniverse()           metrics ALERTS ALERTS_FOR_STATE up foo:sum foo_bucket foo_count; labels alertname
+//	                               alertstate le quantile job instance severity
 //
 // Expression generator (gen.go) - every random decision is a rapid draw
 //
@@ -32,7 +34,9 @@
 //	                               (by-over-without, by-over-ignoring ...), joined on(L) with a side lacking L, or
 //	                               "re-introduction joins": L removed (without/ignoring/by) and brought back
 //	                               (group_left/right(L), count_values "L", label_replace/label_join dst L) below an
-//	                               outer join on L with a side that carries L
+//	                               outer join on L with a side that carries L, or "by-over-by joins": a matcher label L
+//	                               kept by an inner label-fixing step (by(.., L) / one-to-one on(.., L)) and dropped by an
+//	                               outer by(), joined WITHOUT on()/ignoring() with a side aggregated by the same labels
 //	g.Top(t)     string            Vector, sometimes `X or Y` (when g.OrTop), sometimes Scalar (when g.ScalarTop)
 //
 // All generated text parses with the Prometheus parser (the generator is typed);
@@ -86,6 +90,19 @@ func DefaultUniverse() Universe {
 	return Universe{
 		Metrics: []string{"foo", "bar", "baz"},
 		Labels:  []string{"a", "b", "c", "job", "instance"},
+		Values:  []string{"1", "2", ""},
+		Regexes: []string{".*", ".+", "1|2"},
+	}
+}
+
+// SpecialUniverse uses the names Prometheus and its conventions give a meaning to: the series Prometheus writes
+// for alerts, the scrape health metric, recording-rule style and histogram style names, and the labels
+// alertname / alertstate / le / quantile / severity next to job / instance.  Checks that special-case a NAME
+// (rather than a query shape) only become visible over such a universe.
+func SpecialUniverse() Universe {
+	return Universe{
+		Metrics: []string{"ALERTS", "ALERTS_FOR_STATE", "up", "foo:sum", "foo_bucket", "foo_count"},
+		Labels:  []string{"alertname", "alertstate", "le", "quantile", "job", "instance", "severity"},
 		Values:  []string{"1", "2", ""},
 		Regexes: []string{".*", ".+", "1|2"},
 	}
